@@ -97,11 +97,14 @@ let () =
       print_endline "req";
       List.iter print_endline t1;
       if t1 <> t2 then List.iter (fun l -> print_endline ("alt " ^ l)) t2
-    | ["lreq"; _; h] ->
+    | ["lreq"; fam; h] ->
       (* the same request over a real listener: one segment, then EAGAIN; the number of reads is not compared *)
       let strip t = List.filter (fun l -> String.length l < 6 || String.sub l 0 6 <> "reads ") t in
       let t1 = strip (trace (http_process_n fs_real v_tree !cfg [Data (hb h)])) in
       print_endline "lreq";
+      (match accept_step (fam <> "6") (fam = "6") true with
+       | Some sk -> Printf.printf "accepted v6=%s nonblock=%s\n" (b2s sk.from_v6) (b2s sk.nonblocking)
+       | None -> print_endline "accepted none");
       List.iter print_endline t1
     | "poison" :: _ -> print_endline "poison"
     | ["atoi"; h] -> Printf.printf "atoi %d\n" (int_of_z (atoi (hb h)))
